@@ -144,7 +144,8 @@ impl Decodable for Comparison {
             }
             2 => {
                 let indices_len = reader.read_u32().await? as usize;
-                let mut indices = Vec::with_capacity(indices_len);
+                // Length is untrusted so do not preallocate
+                let mut indices = Vec::new();
                 for _ in 0..indices_len {
                     indices.push(reader.read_u64().await? as usize);
                 }
